@@ -1,6 +1,7 @@
 import PyaModel.Spec.CacheSpec
 import PyaModel.Generated.SetSites
 import PyaModel.Generated.CacheSites
+import PyaModel.Generated.CacheKeys
 /-!
 # Proofs/C10 — helper lemmas for Props/C10.lean
 
@@ -23,6 +24,10 @@ theorem caches_registered_proof : cachesRegistered Gen.scannedCaches = true := b
 
 /-- Every piece of process-level state the scan finds has a registered kind. -/
 theorem proc_state_registered_proof : procStateRegistered Gen.scannedProcState = true := by decide
+
+/-- In every store into a memo table the key mentions every parameter the stored value is computed
+from (or the omission is a registered waiver). -/
+theorem memo_keys_cover_parameters_proof : memoKeysCover Gen.scannedMemoKeys = true := by decide
 
 /-- Every `id(…)` key / hash / membership expression the scan finds is registered with the reason
 why the address identifies a live object. -/
